@@ -10,10 +10,10 @@
    fn = "Mediatype" : out = minify.Mediatype(in) (directly or as the HTML type attribute).
 
    Conforms  is the verdict (the property's relation, spec/DataUri.tla).
-   DriftInfo compares the same line with the design models (MtMachine.AsIs, DataUriDesign.Design
-             for calls without a registered minifier); a difference is reported as
+   DriftInfo compares the same line with the transcriptions of the pinned code (MtMachine.AsIs;
+             DataUriAsIs.AsIsNone for calls without a registered minifier); a difference is reported as
              "DRIFT..." - information about the models, never a verdict. *)
-EXTENDS MtMachine, DataUriDesign, TraceIO
+EXTENDS MtMachine, DataUriAsIs, TraceIO
 VARIABLE l
 Init == l = 1
 Next == l <= N /\ l' = l + 1
@@ -30,6 +30,6 @@ Conforms == l <= N => LET w == LineWhy(Trace[l]) IN w = "" \/ Reject(l, w)
 
 Drift(e) == IF e.panic THEN FALSE
             ELSE IF e.fn = "Mediatype" THEN e.out # AsIs(e.in)
-            ELSE Len(e.regs) = 0 /\ e.out # Design(e.in, "none")
+            ELSE Len(e.regs) = 0 /\ e.out # AsIsNone(e.in)
 DriftInfo == l <= N => (~Drift(Trace[l]) \/ Reject(l, "DRIFT"))
 =============================================================================
